@@ -23,7 +23,7 @@ GCreate == \E by \in Pick(live), c \in Pick(Creators) :
   /\ IF euid[by] = Zero
      THEN UNCHANGED vars /\ n' = n
      ELSE Create(by, Ob(n + 1), c) /\ n' = n + 1
-  /\ Rec([a |-> "create", by |-> by, c |-> c, new |-> IF euid[by] = Zero THEN "none" ELSE Ob(n + 1)])
+  /\ Rec([a |-> "create", by |-> by, c |-> c, new |-> IF euid[by] = Zero THEN "none" ELSE Ob(n + 1), refused |-> euid[by] = Zero])
 GSet == \E o \in Pick(live), x \in Pick(SetTo) :
   /\ \E r \in {0, 1} : Seteuid(o, IF x = "own" THEN uid[o] ELSE x, r)
   /\ Rec([a |-> "seteuid", ob |-> o, x |-> x]) /\ n' = n
